@@ -1,10 +1,12 @@
 //! C08 — projection matrices map the view volume onto the canonical clip volume.
 
+mod regime;
+
 use vek::geom::FrustumPlanes;
 use vek::mat::repr_c::column_major as cm;
 use vek::mat::repr_c::row_major as rm;
 use vkit::refmath as rf;
-use vkit::vk::{self, MatN};
+use vkit::vk::MatN;
 use vkit::*;
 
 const K: f64 = 4096.0;
@@ -255,14 +257,18 @@ pub fn property() -> Property {
     tape!("perspective-cols-rat", p, 64, 20_000, 500_000, persp_cols::<Rat>);
     tape!("perspective-cols-f64", p, 64, 20_000, 500_000, persp_cols::<f64>);
     tape!("perspective-rows-f32", p, 64, 20_000, 500_000, persp_rows::<f32>);
+    checks.extend(regime::checks());
     Property {
         id: "C08",
-        rule: "planes generated as centre +- half-width (centre 0 in ~15% of cases, otherwise off-centre by up to 7 half-widths; orthographic planes also reversed and with negative depth values), near/far positive with far/near in (1, 61] (frustum: also far < near); fields of view as registered angles in (0, pi), rational aspect and viewport sizes; non-trivial = off-centre in x and y, near != 1, far/near not a power of two (perspective: aspect != 1); distinct = distinct consumed tape prefix",
+        rule: "planes generated as centre +- half-width (centre 0 in ~15% of cases, otherwise off-centre by up to 7 half-widths; orthographic planes also reversed and with negative depth values), near/far positive with far/near in (1, 61] (frustum: also far < near); fields of view as registered angles in (0, pi), rational aspect and viewport sizes; non-trivial = off-centre in x and y, near != 1, far/near not a power of two (perspective: aspect != 1); distinct = distinct consumed tape prefix. regime-* checks: each axis (x planes, y planes, depth planes) is an interval from {ordinary, width << offset (conditioning up to 2^10 f32 / 2^38 f64), off-centre by 2^-1..2^-(mantissa+2) of the width, one plane at 0, centred} x {reversed}, then scaled exactly by 2^k: k = 0 for all axes (1/8), one k for all lengths (1/2) or one k per axis (3/8; narrow / wide frusta), |k| stratified up to 96 (f32) / 960 (f64) / 56 (Rat) for the orthographic family and 45 / 450 / 20 where far*near is formed; frustum / perspective depth from {ordinary, far/near - 1 down to 2^-9 / 2^-37, far/near up to 2^20 / 2^50, far < near (frustum)}; fields of view from {uniform in (0.05, pi-0.05), log-uniform 2^-3 .. 2^-40 (f32) / 2^-300 (f64) rad, pi - 2^-j, round numbers of degrees 0.001 .. 179.9}, aspect 2^+-20 / 2^+-50, viewport sizes 2^+-40 / 2^+-100; non-trivial = off-centre in x and y (ortho: near != 0; perspective: aspect != 1)",
         assumptions: &[
             "rustc and the proptest runner/shrinker are trusted",
             "oracle: validity predicate on the images of the eight corners after the homogeneous divide (reference matrix*vector on plain arrays), plus entry-wise relations between constructors",
             "perspective family only on the debug_assert!ed domain: fov in (0, pi), aspect, width, height, near > 0, far > near",
             "float tolerance 4096*eps*scale with scale from the plane magnitudes / interval widths / far-near ratio",
+            "regime-* checks: tolerance 32*eps*cond on the divided (dimensionless) coordinates, cond = (|lo|+|hi|)/|hi-lo| of the axis for x, y and orthographic depth, (far+near)/|far-near| for perspective depth, fov/sin(fov) for x, y of the fov-based constructors (conditioning of 1/tan(fov/2) w.r.t. the angle; 1 for narrow fields of view); entry-wise relations between constructors are compared relative to the entry (32*eps*cond*|entry|), never to 1 + max; cases are generated so that 32*eps*cond <= 2^-7",
+            "regime-* checks: the platform tan / sin / cos are taken to be accurate to a few ulps relative to their result for every argument in (0, pi/2) (also next to pi/2); the oracle corner uses tan(fov/2) of the same scalar type",
+            "not asserted: lengths outside the normal range or so large / small that the textbook products overflow or underflow (2/(right-left), far*near: |log2 length| > 96+19 f32 / 960+46 f64 for the orthographic family, > 45+25 / 450+55 for frustum / perspective), subnormal, infinite or NaN planes, far = infinity, fov >= pi (the debug_assert message calls it invalid although the asserted bound is 2 pi), fov within 2^-9 (f32) / 2^-37 (f64) of pi, far/near - 1 below 2^-9 / 2^-37 (loss of all significant bits in far - near's quotient for any implementation); bit-exact covariance under 2^k scaling is deliberately not demanded (a harmless guard at unit scale would violate it without violating the property)",
         ],
         checks,
         max_discard_frac: 0.1,
